@@ -1,6 +1,7 @@
 """Translator (fail-closed): the unit tables of /repo/src/strengths/units.py - `_units_conversion_dict` (symbol -> factor for the
 space, time and quantity bases) and `_units_labels_dict` (the symbol lists incl. the litre and molar families) - read with `ast`
-from the *current* source on every run and written as Model/UnitTable.v.  Number literals are taken with the decimal meaning of
+from the *current* source on every run and written as Model/UnitTable.v, together with the two if / elif chains nested in
+`parse_units` that give the litre symbols their space unit and the molar symbols their amount and space units.  Number literals are taken with the decimal meaning of
 their source text (`1e-15` is 1/10^15; that binary64 rounds it is the floats' business, covered by the tolerances of the
 correspondence); `constants.avogadro_number()` is the literal returned by that function.  The obligations over these tables
 (Proofs/UnitTableFacts.v, Props/C06.v) say that every symbol of the code's tables is a symbol of the model, of the same kind, with
@@ -53,6 +54,57 @@ def _value(src, n, avo, where):
     raise TranslateError("%s: factor is not a product of number literals and avogadro_number(): %s" % (where, ast.dump(n)[:80]))
 
 
+def _chain(fn, arity):
+    """`if x == "a" : return ... elif x == "b" : return ... else : raise ...` over the function's single parameter, as a table"""
+    if len(fn.args.args) != 1 or fn.args.vararg or fn.args.kwarg or fn.args.kwonlyargs or fn.args.defaults:
+        raise TranslateError("%s: one plain parameter expected" % fn.name)
+    param = fn.args.args[0].arg
+    body = [n for n in fn.body if not (isinstance(n, ast.Expr) and isinstance(n.value, ast.Constant))]
+    if len(body) != 1 or not isinstance(body[0], ast.If):
+        raise TranslateError("%s: a single if / elif chain expected" % fn.name)
+    rows, node = [], body[0]
+    while True:
+        t = node.test
+        if not (isinstance(t, ast.Compare) and isinstance(t.left, ast.Name) and t.left.id == param and len(t.ops) == 1
+                and isinstance(t.ops[0], ast.Eq) and isinstance(t.comparators[0], ast.Constant) and isinstance(t.comparators[0].value, str)):
+            raise TranslateError("%s: a test is not `%s == \"literal\"`" % (fn.name, param))
+        if len(node.body) != 1 or not isinstance(node.body[0], ast.Return):
+            raise TranslateError("%s: a branch is not a single return" % fn.name)
+        v = node.body[0].value
+        vals = [v] if arity == 1 else (list(v.elts) if isinstance(v, ast.Tuple) else [])
+        if len(vals) != arity or not all(isinstance(e, ast.Constant) and isinstance(e.value, str) for e in vals):
+            raise TranslateError("%s: a branch does not return %d string literal(s)" % (fn.name, arity))
+        rows.append((t.comparators[0].value, [e.value for e in vals]))
+        if len(node.orelse) == 1 and isinstance(node.orelse[0], ast.If):
+            node = node.orelse[0]
+            continue
+        if len(node.orelse) == 1 and isinstance(node.orelse[0], ast.Raise):
+            break
+        raise TranslateError("%s: the chain does not end by raising" % fn.name)
+    if len(set(k for k, _ in rows)) != len(rows):
+        raise TranslateError("%s: a symbol is tested twice" % fn.name)
+    return rows
+
+
+def _chains(tree):
+    """the two nested helpers of parse_units that give the litre and molar families their base units"""
+    pu = [n for n in tree.body if isinstance(n, ast.FunctionDef) and n.name == "parse_units"]
+    if len(pu) != 1:
+        raise TranslateError("units.py: parse_units not found (once) at module level")
+    out = {}
+    for name, arity in (("get_volume_fundamental_unit", 1), ("get_concentration_fundamental_units", 2)):
+        fns = [n for n in ast.walk(pu[0]) if isinstance(n, ast.FunctionDef) and n.name == name]
+        if len(fns) != 1:
+            raise TranslateError("parse_units: nested helper %s not found (once)" % name)
+        out[name] = _chain(fns[0], arity)
+        # the helper is what parse_units calls for these families: it is called, and not shadowed by an assignment
+        calls = [n for n in ast.walk(pu[0]) if isinstance(n, ast.Call) and isinstance(n.func, ast.Name) and n.func.id == name]
+        stores = [n for n in ast.walk(pu[0]) if isinstance(n, ast.Name) and n.id == name and isinstance(n.ctx, ast.Store)]
+        if not calls or stores:
+            raise TranslateError("parse_units: %s is not called, or is re-bound" % name)
+    return out
+
+
 def extract(repo=None):
     root = (Path(repo) if repo else REPO) / "src" / "strengths"
     try:
@@ -98,9 +150,10 @@ def extract(repo=None):
                     base = base.value
                 if isinstance(base, ast.Name) and base.id in ("_units_conversion_dict", "_units_labels_dict") and isinstance(t, ast.Subscript):
                     raise TranslateError("units.py: the unit tables are modified after their definition")
+    chains = _chains(tree)
     if sorted(conv) != ["quantity", "space", "time"] or sorted(labels) != ["density", "quantity", "space", "time", "volume"]:
         raise TranslateError("units.py: unexpected set of bases in the unit tables: %s / %s" % (sorted(conv), sorted(labels)))
-    return {"conv": conv, "labels": labels}
+    return {"conv": conv, "labels": labels, "chains": chains}
 
 
 def _cp(s):
@@ -122,6 +175,13 @@ def emit(data):
     for base in ("space", "time", "quantity", "density", "volume"):
         o.append("Definition code_labels_%s : list (list N) := [%s]%%N.   (* %s *)\n" % (
             base, "; ".join(_cp(l) for l in data["labels"][base]), " ".join(data["labels"][base])))
+    ch = data["chains"]
+    o.append("(* parse_units: get_volume_fundamental_unit (litre symbol -> space symbol, cubed) *)")
+    o.append("Definition code_volume_chain : list (list N * list N) := [%s]%%N.\n" % "; ".join(
+        "(%s, %s)" % (_cp(k), _cp(v[0])) for k, v in ch["get_volume_fundamental_unit"]))
+    o.append("(* parse_units: get_concentration_fundamental_units (molar symbol -> amount symbol, space symbol cubed) *)")
+    o.append("Definition code_molar_chain : list (list N * (list N * list N)) := [%s]%%N.\n" % "; ".join(
+        "(%s, (%s, %s))" % (_cp(k), _cp(v[0]), _cp(v[1])) for k, v in ch["get_concentration_fundamental_units"]))
     return "\n".join(o)
 
 
